@@ -4,6 +4,10 @@
 set -e
 cd "$(dirname "$0")"
 mkdir -p coq/gen coq/cases evidence replays _cache
+# sympy (needed only by the shipped TORPEX example that C12 runs) from the offline wheelhouse into a private directory; absence is tolerated
+if [ ! -d _deps/sympy ]; then
+  /venv/bin/pip install --quiet --no-index --find-links /opt/veriftools/wheels --target _deps sympy mpmath >/dev/null 2>&1 || true
+fi
 /venv/bin/python tools/regen_all.py
 cd coq
 coq_makefile -f _CoqProject -o Makefile >/dev/null 2>&1
